@@ -201,6 +201,123 @@ fn sequences(alpha: &[Ev], len: usize) -> impl Iterator<Item = Case> + '_ {
     })
 }
 
+// ------------------------------------------------------------------ the transports' own disconnect paths
+// Real TCP and WebSocket connections to servers started in process: a burst of sessions selects the database and goes
+// away in different ways (clean close, close with unread replies = reset, a line that is not UTF-8 before the close, a
+// WebSocket session); when the burst is gone `$connections` must be back at what it was (polled up to 30 s: the servers
+// notice a closed connection on their own threads).
+
+#[derive(Clone, Debug, Serialize, Deserialize, PartialEq)]
+pub enum Bye {
+    TcpClean,
+    TcpResetWithUnreadReplies,
+    TcpAfterANonUtf8Line,
+    TcpHalfLineThenClose,
+    WebSocket,
+}
+
+#[derive(Clone, Debug, Serialize, Deserialize)]
+pub struct TCase {
+    pub byes: Vec<Bye>,
+}
+
+fn tcase_strategy() -> impl Strategy<Value = TCase> {
+    let bye = prop_oneof![2 => Just(Bye::TcpClean), 2 => Just(Bye::TcpResetWithUnreadReplies), 2 => Just(Bye::TcpAfterANonUtf8Line), 1 => Just(Bye::TcpHalfLineThenClose), 2 => Just(Bye::WebSocket)];
+    prop::collection::vec(bye, 1..5).prop_map(|byes| TCase { byes })
+}
+
+pub fn run_transport_case(srv: &crate::props::c10::TServer, case: &TCase) -> Outcome {
+    use std::io::{Read, Write};
+    // a database of its own for every evaluation (a count leaked by one case must not decide the next)
+    static NEXT: std::sync::atomic::AtomicU64 = std::sync::atomic::AtomicU64::new(0);
+    let db = format!("t{}", NEXT.fetch_add(1, std::sync::atomic::Ordering::SeqCst));
+    {
+        let mut admin = Session::new();
+        admin.auth(&srv.node);
+        admin.send(&srv.node, &format!("create-db {} ptok", db));
+        let _ = admin.disconnect(&srv.node);
+    }
+    let dbc = db.clone();
+    let count = move |srv: &crate::props::c10::TServer| srv.node.dump_db(&dbc).and_then(|m| m.get("$connections").map(|v| v.0.clone())).unwrap_or_else(|| "0".to_string());
+    let mut out = Outcome::ok(true);
+    out.classes.push("transport-disconnect-paths");
+    // settle first (an earlier case's sessions may still be on their way out)
+    let settle = |want: &str| -> bool {
+        for _ in 0..6000 {
+            if count(srv) == want {
+                return true;
+            }
+            crate::transport::real_sleep(std::time::Duration::from_millis(5));
+        }
+        false
+    };
+    if !settle("0") {
+        // not this case's doing: reported by the case that caused it
+        out.nontrivial = false;
+        return out;
+    }
+    for (i, bye) in case.byes.iter().enumerate() {
+        match bye {
+            Bye::WebSocket => {
+                let _ = crate::transport::ws_exchange_until(srv.ws, vec![crate::transport::Frame::Text(format!("use-db {} ptok", db)), crate::transport::Frame::Text("get $connections".into())], "value", 30_000);
+            }
+            _ => {
+                let mut s = match std::net::TcpStream::connect(("127.0.0.1", srv.tcp)) {
+                    Ok(s) => s,
+                    Err(e) => {
+                        eprintln!("C17 transport engine: connect: {}", e);
+                        out.nontrivial = false;
+                        return out;
+                    }
+                };
+                s.set_read_timeout(Some(std::time::Duration::from_millis(200))).ok();
+                let _ = s.write_all(format!("use-db {} ptok\n", db).as_bytes());
+                // wait until the session is counted
+                let mut counted = false;
+                for _ in 0..6000 {
+                    if count(srv) != "0" {
+                        counted = true;
+                        break;
+                    }
+                    crate::transport::real_sleep(std::time::Duration::from_millis(5));
+                }
+                if !counted {
+                    out.fail = Some(("C17|transport|session-not-counted".into(), format!("session {} ({:?}): use-db over TCP did not raise $connections within 30 s", i, bye)));
+                    return out;
+                }
+                match bye {
+                    Bye::TcpClean => {
+                        let mut buf = [0u8; 4096];
+                        let _ = s.read(&mut buf);
+                        let _ = s.shutdown(std::net::Shutdown::Both);
+                    }
+                    Bye::TcpResetWithUnreadReplies => {
+                        // ask for replies and close without reading them: the kernel answers the server with a reset
+                        let _ = s.write_all(b"keys\nget $connections\nkeys\n");
+                        crate::transport::real_sleep(std::time::Duration::from_millis(30));
+                    }
+                    Bye::TcpAfterANonUtf8Line => {
+                        let _ = s.write_all(b"get \xff\xfe\xfd\n");
+                        let mut buf = [0u8; 4096];
+                        let _ = s.read(&mut buf);
+                        let _ = s.shutdown(std::net::Shutdown::Both);
+                    }
+                    Bye::TcpHalfLineThenClose => {
+                        let _ = s.write_all(b"get $conn");
+                    }
+                    Bye::WebSocket => unreachable!(),
+                }
+                drop(s);
+            }
+        }
+        if !settle("0") {
+            out.fail = Some((format!("C17|transport|connection-not-released|{:?}", bye), format!("session {} went away ({:?}) and 30 s later $connections of the database is still {:?} with no session open; burst {:?}", i, bye, count(srv), case.byes)));
+            return out;
+        }
+    }
+    out
+}
+
 // ------------------------------------------------------------------ two sessions interleaved
 // Two sessions run short programs of {select d0, select d1, disconnect} at once under the baton scheduler (a switch is
 // possible at every lock acquisition of the key maps); when both are done, `$connections` of each database must equal the
@@ -288,6 +405,15 @@ pub fn run_conc(ctx: &Ctx, case: &CCase) -> Outcome {
 
 pub fn run(ctx: &Ctx, rep: &mut Report) {
     crate::interpose::virtual_clock(true);
+    {
+        let srv = crate::props::c10::TServer::start(ctx);
+        let nt = ctx.amount(160, 4000);
+        crate::report::explore_with(ctx, rep, "transport-disconnect-paths", nt, 30, tcase_strategy(), |c| run_transport_case(&srv, c));
+        crate::interpose::virtual_clock(true);
+        if !rep.failures.is_empty() {
+            return;
+        }
+    }
     let nc = ctx.amount(6000, 200_000);
     explore(ctx, rep, "sessions-interleaved", nc, ccase_strategy(), |c| run_conc(ctx, c));
     if !rep.failures.is_empty() {
@@ -306,6 +432,10 @@ pub fn run(ctx: &Ctx, rep: &mut Report) {
 }
 
 pub fn replay(ctx: &Ctx, _engine: &str, case: &J) -> Result<Option<(String, String)>, String> {
+    if _engine == "transport-disconnect-paths" {
+        let srv = crate::props::c10::TServer::start(ctx);
+        return replay_guarded::<TCase>(ctx, case, |c| run_transport_case(&srv, c));
+    }
     if _engine == "sessions-interleaved" {
         crate::interpose::virtual_clock(true);
         return replay_guarded::<CCase>(ctx, case, |c| run_conc(ctx, c));
